@@ -1,0 +1,32 @@
+//go:build verif
+
+// Contracts for package votingmachine, checked by /verif/govc (comment-only file).
+package votingmachine
+
+//@ pred vmwf(vm *VotingMachine) = vm.logger != nil && vm.eventLoop != nil && vm.config != nil && vm.blockchain != nil && vm.auth != nil && vm.state != nil && vm.verifiedVotes != nil && cert.awf(vm.auth) && vm.auth.blockchain == vm.blockchain && vm.auth.config == vm.config && blockchain.binv(vm.blockchain) && blockchain.bmaps(vm.blockchain) && vm.blockchain.sender != nil && vm.blockchain.eventLoop != nil && vm.eventLoop.waitingEvents != nil
+
+// (Not discharged in this revision: the store invariant "every stored vote is filed under the
+// hash it votes for, was accepted by VerifyPartialCert, carries exactly one signature, and the
+// votes of one block come from pairwise distinct signers"; see the not-decided clauses of C09.)
+
+// CollectVote: the ghost trace `vcall` records the votes handed on to verification. A vote
+// whose block is known (or, once deferred, can be fetched) and is newer than the high QC is
+// handed on; a vote for an unknown block is deferred once and verifies nothing yet; votes for
+// old blocks are dropped.
+//@ func (*VotingMachine).CollectVote property C09
+//@   requires vmwf(vm) && hotstuff.genesisBlock != nil
+//@   requires [fetch-wf] blockchain.fetchwf()
+//@   ghost at call verifyCert :: emit vcall(op1.blockHash)
+//@   ghost at go verifyCert :: emit vcall(op1.blockHash)
+//@   ensures [handed-on] (vote.Deferred ? old(blockchain.getok(vm.blockchain, vote.PartialCert.blockHash)) && old(blockchain.getblk(vm.blockchain, vote.PartialCert.blockHash)).view > old(vm.state.highQC.view) : old(has(vm.blockchain.blocks, vote.PartialCert.blockHash)) && old(vm.blockchain.blocks[vote.PartialCert.blockHash]).view > old(vm.state.highQC.view)) ==> tracelen(vcall) == old(tracelen(vcall)) + 1 && traceat(vcall, 0, old(tracelen(vcall))) == vote.PartialCert.blockHash
+//@   ensures [nothing-else] tracelen(vcall) <= old(tracelen(vcall)) + 1
+//@   opt noframe true
+
+// verifyCert hands a NewViewMsg with the new certificate to the event
+// loop (ghost trace `added`) only when the stored votes for the block, including this one, reach
+// the quorum.
+//@ func (*VotingMachine).verifyCert property C09
+//@   requires vmwf(vm) && block != nil && block.hash == cert.blockHash && hotstuff.genesisBlock != nil
+//@   ensures [certificate-needs-quorum] tracelen(added) > old(tracelen(added)) ==> old(len(vm.verifiedVotes[cert.blockHash])) + 1 >= hotstuff.Q(len(vm.config.replicas))
+//@   ensures [at-most-one-event] tracelen(added) <= old(tracelen(added)) + 1
+//@   opt noframe true
